@@ -78,7 +78,8 @@ void harness(void) {
   ASSUME(observe <= 0xFFFFFF && freq >= 1 && freq <= 1000);
   static coap_subscription_t sub0, sub1; static coap_pdu_t opdu0, opdu1; coap_subscription_t *const sub[2] = { &sub0, &sub1 }; coap_pdu_t *const opdu[2] = { &opdu0, &opdu1 };   /* separate objects, not arrays of structs: a pointer into an array of large structs is a symbolic offset for cbmc */
   static coap_session_t sess0, sess1; coap_session_t *const sess[2] = { &sess0, &sess1 };
-  r->context = ctx; r->observable = observable; r->observe = observe; r->dirty = 0; r->partiallydirty = 0; r->flags = 0;
+  IN_SCALAR(_Bool, was_dirty); IN_SCALAR(_Bool, was_partially);
+  r->context = ctx; r->observable = observable; r->observe = observe; r->dirty = was_dirty; r->partiallydirty = was_partially; r->flags = 0;
   ctx->observe_save_freq = freq; ctx->observe_pending = 0; ctx->observe_user_data = NULL;
   G_track = 0; G_io_timer = 0; G_nsend = 0; G_obs_opt = 0; G_tok = 0; G_handler = 0; G_mutex_ops = 0;
 #if WHICH == 1
@@ -87,10 +88,13 @@ void harness(void) {
   int ret = coap_resource_notify_observers_lkd(r, NULL);
   int active = observable && has_sub;
   CHECK(ret == active, "a change is accepted exactly when the resource is observable and has a subscriber");
-  CHECK(active || (r->observe == observe && r->dirty == 0 && ctx->observe_pending == 0 && G_track == 0), "otherwise nothing changes");
-  CHECK(!active || (r->observe == ((observe + 1) & 0xFFFFFF) && SERIAL24_GT(r->observe, observe)), "each change advances the Observe value to a strictly newer 24-bit serial number");
+  CHECK(active || (r->observe == observe && r->dirty == was_dirty && ctx->observe_pending == 0 && G_track == 0), "otherwise nothing changes");
+  /* (a change signalled while the previous one has not been notified to ANYBODY yet - dirty already set - may share its value;
+   *  whenever a notification with the old value may already have gone out, i.e. also in the partially-notified state, the value must advance) */
+  CHECK(!active || was_dirty || (r->observe == ((observe + 1) & 0xFFFFFF) && SERIAL24_GT(r->observe, observe)), "each change advances the Observe value to a strictly newer 24-bit serial number (also while some observers are still waiting for the previous one)");
+  CHECK(!active || r->observe == observe || r->observe == ((observe + 1) & 0xFFFFFF), "the Observe value never moves other than one step forward");
   CHECK(!active || (r->dirty == 1 && ctx->observe_pending == 1 && G_io_timer == 1), "the resource is marked dirty and the I/O loop is woken");
-  CHECK(!active || G_track == ((has_track && (r->observe % freq) == 0) ? 1 : 0), "the persistence callback runs exactly when the new value is a multiple of the save frequency");
+  CHECK(!active || r->observe == observe || G_track == ((has_track && (r->observe % freq) == 0) ? 1 : 0), "the persistence callback runs exactly when the new value is a multiple of the save frequency");
   CHECK(!G_track || G_track_value == r->observe, "and is given the new value");
   MUSTFAIL(!(active && observe == 0xFFFFFF), "wrap_reachable"); MUSTFAIL(!G_track, "track_reachable");
 #else
